@@ -4,11 +4,14 @@ import PprofVerif.Gen.FetchConsts
 /- Driver operations for C16 (multi-source fetch).
 
    fetch.chunk
-       → the chunk size extracted from the current source (Gen/FetchConsts.lean)
+       → the chunk size extracted from the current source (Gen/FetchConsts.lean) or `unknown`
+   fetch.facts
+       → `<chunkShape> <barrierShape> <collectShape>` as recognised by the translator
    fetch.model <c> <n> <n bits: 1 = source i succeeds> <π: list> <m> <m bits> <σ: list>
        runs Fetch.grabSourcesAndBases on the free-monoid instance (profile of source i = [i],
        of base j = [1000000 + j], merge = concatenation in merge order) with chunk size c
-       (0 ⇒ the extracted one) under the completion orders π (sources) and σ (bases)
+       (0 ⇒ the extracted one, or 128 when it was not recognised: by
+       `chunked_eq_flat` the result does not depend on it) under the completion orders π (sources) and σ (bases)
        → `<ok|err|panic> src <list> base <list> errs <list of failed source idx> berrs <list>`
          (the src/base lists are the merged "profiles": the indices collected, in merge order;
           on err/panic they are empty)
@@ -31,12 +34,16 @@ def req : Rd (Nat × List Bool × List Nat × List Bool × List Nat) := do
 def baseTag : Nat := 1000000
 
 def ops : List (String × (List String → String)) := [
-  ("fetch.chunk", fun _ => toString Gen.FetchConsts.chunkSize),
+  ("fetch.chunk", fun _ => match Gen.FetchConsts.chunkSize? with
+    | some c => toString c
+    | none => "unknown"),
+  ("fetch.facts", fun _ => Gen.FetchConsts.chunkShape ++ " " ++ Gen.FetchConsts.barrierShape ++ " " ++
+    Gen.FetchConsts.collectShape),
   ("fetch.model", fun ts =>
     match Rd.run req ts with
     | none => "bad-op"
     | some (c, sb, π, bb, σ) =>
-      let c := if c = 0 then Gen.FetchConsts.chunkSize else c
+      let c := if c = 0 then Gen.FetchConsts.chunkSize?.getD 128 else c
       let r := grabSourcesAndBases catMerge c (outsOfBits 0 sb) sb.length π (outsOfBits baseTag bb) bb.length σ
       let tail := Wr.render (["errs"] ++ Wr.list Wr.nat (r.srcPrinted.map (·.1)) ++
                              ["berrs"] ++ Wr.list Wr.nat (r.basePrinted.map (·.1)))
